@@ -31,14 +31,22 @@ let branch_name_c08c (b : pbr_c08c) : string =
   | PB_o_empty -> "o-empty" | PB_o_other_user -> "o-other-user" | PB_o_nosub -> "o-nosub" | PB_o_junk -> "o-junk"
   | PB_o_owner_bit -> "o-owner-bit" | PB_o_same -> "o-same" | PB_o_changed -> "o-changed"
 
+let perm_op_c08c (kind : string) (args : string list) : op =
+  let n = n_of_string in
+  match kind, args with
+  | "sub", [sid; want; bkg] -> OSub (n sid, bytes_of_hex want, bkg = "1")
+  | "setsub", [sid; target; mode] -> OSetSub (n sid, n target, bytes_of_hex mode)
+  | _ -> failwith ("bad op " ^ kind)
+
 let handle (w : string list) : string =
   match w with
+  (* the branch a request WOULD take in the current state; the state is not changed *)
+  | "probe" :: kind :: args ->
+    "branch " ^ branch_name_c08c (perm_branch_c08c !R_topic.sm !R_topic.st (perm_op_c08c kind args))
+  (* a user id that is in no table (the driver allocates an id without creating the user) *)
+  | ["ghost"; _] -> ""
   | "op" :: _ :: kind :: args when kind = "sub" || kind = "setsub" ->
-    let n = n_of_string in
-    let o = match kind, args with
-      | "sub", [sid; want; bkg] -> OSub (n sid, bytes_of_hex want, bkg = "1")
-      | "setsub", [sid; target; mode] -> OSetSub (n sid, n target, bytes_of_hex mode)
-      | _ -> failwith ("bad op " ^ kind) in
+    let o = perm_op_c08c kind args in
     let b = branch_name_c08c (perm_branch_c08c !R_topic.sm !R_topic.st o) in
     let out = R_topic.handle w in
     (match String.index_opt out '\n' with
